@@ -25,7 +25,8 @@ PROP = {
                   "collects the leases before calling it).",
     "parts": [
         {"name": "leasedb", "pkg": "internal/dhcpd", "files": ["dhcpd/c14_db_test.go"],
-         "tests": [("TestVFC14LeaseDB", (150, 400)), ("TestVFC14LeaseMigration", (60, 200))],
+         "tests": [("TestVFC14LeaseDB", (150, 400)), ("TestVFC14LeaseMigration", (60, 200)),
+                   ("TestVFC14LeaseDBConcurrent", (60, 250))],
          "plain": ["TestVFC14LeaseDBSyscalls"]},
         {"name": "filterlist", "pkg": "internal/filtering", "files": ["filtering/c14_list_test.go"],
          "tests": [("TestVFC14FilterList", (40, 150))],
@@ -43,7 +44,7 @@ PROP = {
             "content size/generation, position in the sequence).",
     "assumptions": ["rename(2) is atomic; data is durable only after fsync; the kernel reports every event through inotify",
                     "strace reports the syscalls of all threads of the child (-f)"],
-    "require_classes": {"thorough": ["leasedb:replace_different", "filterlist:replace_different", "config:replace_different",
+    "require_classes": {"thorough": ["leasedb:replace_different", "leasedb:overlapping_stores", "filterlist:replace_different", "config:replace_different",
                                       "config:upgrade_rewrite", "leasedb:migration", "leasedb:syscall_checked_renames",
                                       "filterlist:syscall_checked_renames", "config:syscall_checked_renames"]},
 }
